@@ -5,7 +5,7 @@
 # observed slice sizes as inputs; per-class in-use counts and queue occupancy compared after every op;
 # the property oracle (in-use == 0 after closing everything) runs on every history.
 import json, os, re
-from vlib import core, gen, sched
+from vlib import core, gen, sched, gosrc
 
 PROP = "C09"
 META = {
@@ -27,7 +27,7 @@ def scan_fx():
     """Translator for the one switch of Model/Accounting.v: does linkedBuffer.recycle() give the pinned list back?
     Returns (value, description, error). Anything that is not exactly one of the two known shapes is an error."""
     try:
-        src = open(os.path.join(core.REPO, "buffer.go")).read()
+        src = gosrc.read("buffer.go")
     except OSError as ex:
         return None, None, "cannot read buffer.go: %s" % ex
     m = re.search(r"func \(l \*linkedBuffer\) recycle\(\) \{(.*?)\n}\n", src, re.S)
